@@ -53,8 +53,9 @@ def shards(tier, seed):
 
 
 class System:
-    def __init__(self, bs):
+    def __init__(self, bs, ctx=None):
         self.bs = bs
+        self.ctx = ctx
 
     def build(self, root):
         cls = getattr(self.bs, root['cls'])
@@ -64,7 +65,19 @@ class System:
             s = cls(bin='1' + root['bits'] + '01')
             del s[0]
             del s[-2:]
-        return {'bitstring': self.bs, 's': s}
+        return {'bitstring': self.bs, 's': s, 'FW': self.fw, 'WITH_BA': self.with_ba}
+
+    def with_ba(self, thunk):
+        self.bs.options.bytealigned = True
+        try:
+            return thunk()
+        finally:
+            self.bs.options.bytealigned = False
+
+    def fw(self, bits):
+        from .. import routes
+        data = bits + '1' * (24 - len(bits))
+        return self.bs.Bits(filename=self.ctx.file_for(int(data, 2).to_bytes(3, 'big')), length=len(bits))
 
     def root_src(self, root):
         if root['route'] == 'fresh':
@@ -93,7 +106,7 @@ class System:
         return ''
 
     def snippet(self, root, hist, ev, accept):
-        lines = ["import bitstring"] + self.root_src(root)
+        lines = ["import bitstring"] + ([FW_SRC] if any('FW(' in x.src for x in list(hist) + [ev]) else []) + ([BA_SRC] if any('WITH_BA(' in x.src for x in list(hist) + [ev]) else []) + self.root_src(root)
         for h in hist:
             lines += ["try:", f"    {h.src}", "except Exception:", "    pass"]
         lines += ["try:", f"    r = ('ok', {ev.src})" if _is_expr(ev.src) else f"    {ev.src}; r = ('ok', None)",
@@ -118,7 +131,26 @@ def P(L):
     return list(dict.fromkeys([-L - 1, -L, -1, 0, 1, L // 2, L - 1, L, L + 1]))
 
 
-OPERANDS = [('', "''"), ('0', "'0b0'"), ('1', "bitstring.Bits(bin='1')"), ('01', "'0b01'"), ('110', "bitstring.BitArray(bin='110')"), ('SELF', 's')]
+OPERANDS = [('', "''"), ('0', "'0b0'"), ('1', "bitstring.Bits(bin='1')"), ('01', "'0b01'"), ('110', "bitstring.BitArray(bin='110')"), ('SELF', 's'),
+            ('10', "FW('10')")]       # FW: the operand is a length-limited window onto a longer file (its bits are '10', the file goes on with 1s)
+
+BA_SRC = '''def WITH_BA(thunk):
+    bitstring.options.bytealigned = True
+    try:
+        return thunk()
+    finally:
+        bitstring.options.bytealigned = False'''
+
+FW_SRC = '''import tempfile, os
+_FWDIR = tempfile.mkdtemp()
+def FW(bits):
+    # Bits(filename=..., length=len(bits)): a window onto a longer file
+    path = os.path.join(_FWDIR, 'w' + bits)
+    if not os.path.exists(path):
+        data = bits + '1' * (24 - len(bits))
+        with open(path, 'wb') as f:
+            f.write(int(data, 2).to_bytes(3, 'big'))
+    return bitstring.Bits(filename=path, length=len(bits))'''
 
 
 def opnd(st, b):
@@ -169,10 +201,10 @@ def _menu_events(L, menu):
                     src = _sl(a, b, c)
                     dev = c not in (None, 1) or a is not None and a < 0
                     A(Event('delslice', (a, b, c), f"del s[{src}]", dev))
-                    vals = [('bits', '', "''"), ('bits', '1', "'0b1'"), ('bits', '01', "bitstring.Bits(bin='01')"), ('bits', 'SELF', 's'),
+                    vals = [('bits', '', "''"), ('bits', '1', "'0b1'"), ('bits', '01', "bitstring.Bits(bin='01')"), ('bits', 'SELF', 's'), ('bits', '10', "FW('10')"),
                             ('int', 0, '0'), ('int', 1, '1'), ('int', 3, '3'), ('int', -1, '-1'), ('int', -2, '-2')]
                     if not full:
-                        vals = [vals[1], vals[2], vals[5], vals[6]]
+                        vals = [vals[1], vals[2], vals[6], vals[7]]
                     for kind, v, vsrc in vals:
                         A(Event('setslice', (a, b, c, kind, v), f"s[{src}] = {vsrc}", dev or v in ('', 'SELF', -1, -2)))
         ivals = [('int', 0, '0'), ('int', 1, '1'), ('int', -1, '-1'), ('int', 2, '2'), ('int', 1, 'True'), ('bits', '1', "'0b1'"),
@@ -181,8 +213,8 @@ def _menu_events(L, menu):
             for kind, v, vsrc in (ivals if full else [ivals[1], ivals[0], ivals[6]]):
                 A(Event('setitem', (i, kind, v), f"s[{i}] = {vsrc}", not 0 < i < L - 1 or vsrc not in ('0', '1')))
         # '11' is self-overlapping: successive *non-overlapping* matches and the count limit interact
-        olds = [('0', "'0b0'"), ('1', "'0b1'"), ('01', "'0b01'"), ('11', "'0b11'"), ('', "''")] if full else [('1', "'0b1'"), ('01', "'0b01'"), ('11', "'0b11'")]
-        news = [('', "''"), ('1', "'0b1'"), ('00', "'0b00'"), ('SELF', 's')] if full else [('00', "'0b00'"), ('', "''")]
+        olds = [('0', "'0b0'"), ('1', "'0b1'"), ('01', "'0b01'"), ('11', "'0b11'"), ('', "''"), ('10', "FW('10')")] if full else [('1', "'0b1'"), ('01', "'0b01'"), ('11', "'0b11'")]
+        news = [('', "''"), ('1', "'0b1'"), ('00', "'0b00'"), ('SELF', 's'), ('10', "FW('10')")] if full else [('00', "'0b00'"), ('', "''")]
         wins = [(None, None), (1, None), (None, -1), (1, -1), (L + 1, None)] if full else [(None, None), (1, -1)]
         for o, osrc in olds:
             for n_, nsrc in news:
@@ -248,6 +280,11 @@ def _menu_events(L, menu):
         A(Event('ror', (3, None, None), "s.ror(3, None, None)", False))
         A(Event('replace', ('10110010', '00000000', None, None, None, 'BA'), "s.replace('0xb2', '0x00', bytealigned=True)", False))
         A(Event('replace', ('1', '', 8, None, 1, 'BA'), "s.replace('0b1', '', 8, None, 1, bytealigned=True)", True))
+        # the module-wide default (options.bytealigned) against the explicit argument: explicit False wins, None defers to the option
+        A(Event('replace', ('10110010', '0', None, None, None, 'optBA-explicit-False'), "WITH_BA(lambda: s.replace('0xb2', '0b0', bytealigned=False))", True))
+        A(Event('replace', ('1', '', None, None, 2, 'optBA-explicit-False'), "WITH_BA(lambda: s.replace('0b1', '', count=2, bytealigned=False))", True))
+        A(Event('replace', ('10110010', '0', None, None, None, 'BA', 'optBA-None'), "WITH_BA(lambda: s.replace('0xb2', '0b0'))", True))
+        A(Event('replace', ('01', '1', None, None, None, 'BA', 'optBA-None'), "WITH_BA(lambda: s.replace('0b01', '0b1', bytealigned=None))", True))
         A(Event('set', ('range(0, 16, 3)', 1, 'seq', list(range(0, 16, 3))), "s.set(1, range(0, 16, 3))", True))
         A(Event('delslice', (None, 8, None), "del s[:8]", False))
     return ev
@@ -284,7 +321,7 @@ def model_step(st, ev):
         v = (a[3], opnd(st, a[4]) if a[3] == 'bits' else a[4])
         return M.setslice(st, a[0], a[1], a[2], v)
     if op == 'replace':
-        ba = len(a) > 5
+        ba = len(a) > 5 and a[5] == 'BA'
         return M.replace(st, a[0], opnd(st, a[1]), a[2], a[3], a[4], ba)
     if op == 'reverse':
         return M.reverse(st, a[0], a[1])
@@ -311,8 +348,17 @@ def model_step(st, ev):
 
 
 def run_shard(shard, acc):
+    from .. import routes
+    ctx = routes.Ctx()
+    try:
+        _run_shard(shard, acc, ctx)
+    finally:
+        ctx.close()
+
+
+def _run_shard(shard, acc, ctx):
     bs = core.import_bitstring()
-    sysm = System(bs)
+    sysm = System(bs, ctx)
     q = acc.tier == 'quick'
     if shard['plan'] == 'std':
         if q:
